@@ -1,5 +1,6 @@
 CONSTANTS
   NSlots = 12
+  Glob = "no"
   Abs = FALSE
   Lean = FALSE
   Vocab = "all"
